@@ -246,6 +246,58 @@ def observe_write(case: dict, scratch: str = None) -> dict:
     return event
 
 
+def observe_pipeline_write(case: dict, scratch: str = None) -> dict:
+    """ The call site of the results writer: antismash.run_antismash in reuse mode, the results file being reused sitting
+        where the new one goes; one record carries results of a module this version does not know (they stay a raw
+        dict and their conversion fails: the spec's fault kind InvalidType). Prerequisite check and detection are stubbed
+        (no HMMER here), the rest is the real pipeline. """
+    from unittest import mock
+    from ..common import import_repo
+    import_repo()
+    import antismash
+    from antismash import main as as_main
+    from antismash.common import serialiser
+    from antismash.common.secmet import Record
+    from antismash.config import build_config, destroy_config
+    logging.disable(logging.CRITICAL)
+    fault = case["fault"]
+    workdir = tempfile.mkdtemp(prefix="c20p_", dir=scratch)
+    outdir = os.path.join(workdir, "out")
+    os.mkdir(outdir)
+    target = os.path.join(outdir, "prev.json")
+    records = [Record("ATGCGTAC" * 50, id=f"rec{i}", name=f"rec{i}", description="verif", annotations={"molecule_type": "DNA"})
+               for i in range(1, case["nrec"] + 1)]
+    earlier = serialiser.AntismashResults("prev.gbk", records, [{} for _ in records], "earlier-version")
+    data = json.loads(json.dumps(earlier.to_json()))
+    data["records"][fault["i"] - 1]["modules"]["antismash.modules.retired_module"] = {"schema_version": 1, "record_id": f"rec{fault['i']}"}
+    with open(target, "w", encoding="utf-8") as handle:
+        handle.write(json.dumps(data))
+    with open(target, "rb") as handle:
+        before = handle.read()
+    del _LOG[:]
+    exc = ""
+    destroy_config()
+    try:
+        options = build_config(["--reuse-results", target, "--output-dir", outdir, "--minimal", "--minlength", "1"],
+                               isolated=True, modules=antismash.get_all_modules())
+        with mock.patch.object(as_main, "check_prerequisites", return_value=None), \
+                mock.patch.object(as_main, "run_detection", return_value={}), _OpenHook(target):
+            try:
+                antismash.run_antismash("", options)
+            except Exception as err:  # pylint: disable=broad-except
+                exc = type(err).__name__
+                del err
+    finally:
+        destroy_config()
+    gc.collect()
+    with open(target, "rb") as handle:
+        after = handle.read()
+    disk = "old" if after == before else ("truncated" if after == b"" else "partial")
+    event = {"op": "write", "c": case, "trace": list(_LOG), "ret": {"exc": exc}, "disk": disk}
+    shutil.rmtree(workdir, ignore_errors=True)
+    return event
+
+
 # ---- the directory guard ---------------------------------------------------------------------------
 def _snapshot(root):
     """ {relative path: ("dir",) | ("file", sha1 of bytes)} of everything below root (root itself is "."). """
@@ -338,7 +390,8 @@ def _observe_many(job):
     scratch, cases = job
     out = []
     for case in cases:
-        func = observe_write if case["op"] == "write" else observe_dir
+        func = observe_dir if case["op"] != "write" else (
+            observe_pipeline_write if case["input"]["writer"] == "run_antismash" else observe_write)
         event = func(case["input"], scratch)
         event["id"] = case["id"]
         out.append(event)
@@ -379,7 +432,7 @@ def _features(op, case):
 
 
 def _call_text(op, case):
-    func = "observe_write" if op == "write" else "observe_dir"
+    func = "observe_dir" if op != "write" else ("observe_pipeline_write" if data.get("writer") == "run_antismash" else "observe_write")
     return f"from harness.props import c20; c20.{func}({case!r})"
 
 
@@ -455,6 +508,10 @@ def run(ctx):
     ctx.expect_violation(loose, "GuardInSandwich", "SafeWrite_DirMC guard ignoring sub-directories (negative control)")
 
     cases = [{"op": "write", "input": case} for case in _write_cases(strict)]
+    # the writer's call site in the pipeline (reuse mode): unknown module results in record i of n
+    cases += [{"op": "write", "input": {"nrec": nrec, "nmod": 1, "writer": "run_antismash",
+                                        "fault": {"phase": "convert", "i": i, "j": 1, "kind": "InvalidType"}}}
+              for nrec in (1, 3) for i in sorted({1, nrec})]
     cases += [{"op": "dir", "input": case} for case in _dir_cases(dirs)]
     if not any(c["op"] == "write" for c in cases) or not any(c["op"] == "dir" for c in cases):
         raise MachineryError("no cases read from the TLC dumps")
@@ -488,7 +545,8 @@ def run(ctx):
                 "exception, unserialisable value; an unserialisable top-level field) and every directory configuration "
                 "(absent / a file / a directory holding any subset of input copy, log file, region files, results json, "
                 "other file, other directory, dot-file) x mode fresh/reuse x log file configured or not; each is executed "
-                "once against the real code; non-trivial = a fault is planted / the directory is not empty")
+                "once against the real code; plus the writer's call site: run_antismash in reuse mode with results of an unknown module "
+                "in the first / last record; non-trivial = a fault is planted / the directory is not empty")
     ctx.notes["write_cases"] = len(writes)
     ctx.notes["dir_cases"] = len(dir_cases)
     ctx.notes["dir_refusals_observed"] = refusals
@@ -507,7 +565,8 @@ def run(ctx):
 def replay(ctx, record):
     case = record["input"]
     op = "write" if "writer" in case else "dir"
-    event = (observe_write if op == "write" else observe_dir)(case, ctx.workdir)
+    func = observe_dir if op != "write" else (observe_pipeline_write if case["writer"] == "run_antismash" else observe_write)
+    event = func(case, ctx.workdir)
     event["id"] = 0
     by_id = {0: {"op": op, "input": case, "call": _call_text(op, case),
                  "observed": {k: v for k, v in event.items() if k in ("trace", "ret", "disk", "status", "extra", "after")}}}
